@@ -47,6 +47,17 @@ CLAIMS = {
                 'One known finding (covenant-weight sum overflow inside melstructs).',
         'technique': 'bounded symbolic execution of rustc MIR + z3 bit-vector obligations per kernel',
     },
+    'C06': {
+        'text': 'Symbolic execution of the MIR of SealedState::apply_block and melstructs <Header as PartialEq> with '
+                'next_unsealed / apply_tx_batch / seal / header as recorded events: Ok iff the batch is accepted and all 11 '
+                'declared header fields equal the computed ones (each field separately), the batch handed to '
+                'apply_tx_batch is exactly block.transactions, the action handed to seal is block.proposer_action, the '
+                'state returned is the sealed basis; no panic.',
+        'design_ref': 'DESIGN.md §8 C06',
+        'note': COMMON_NOTE + ' The four callees are abstract events here (their behaviour is the subject of the other checks; '
+                'determinism = C03). 1-2 transactions per block.',
+        'technique': 'bounded symbolic execution of rustc MIR with callee events + z3 obligations',
+    },
     'C13': {
         'text': 'Symbolic execution of the MIR of load_stake_info / stake_is_consistent, the lock test of check_tx_validity, '
                 'next_unsealed and StakeSet::unlock_old: a stake is registered iff its data decodes, its first output is SYM '
